@@ -301,6 +301,21 @@ pub fn after_call(
                 ));
             }
         }
+        // ... and the reduction itself is never dropped: it stays pending or becomes the capacity
+        // (only another adjust_max_inflight_msgs call may replace it; a membership change can remove
+        // and re-add the follower in one call, which creates a fresh Progress with the default window)
+        if let (Some(c), None, false) = (pre_incoming, incoming, is_new) {
+            let adjusted = matches!(op, Op::Knob(k) if *k == "adjust_max_inflight");
+            if !adjusted && !event_all {
+                m.stats.inc("c13.pending_window_shrink_resolved");
+                if cap != c && bad.is_none() {
+                    bad = Some((
+                        "reduced-window-forgotten",
+                        format!("window for {} was being reduced to {} but its capacity is {} once the reduction is no longer pending", u, c, cap),
+                    ));
+                }
+            }
+        }
         if bad.is_some() {
         } else if let (Some(si), true) = (still_outstanding, na > 0 || ns > 0) {
             let _ = outstanding_before;
